@@ -60,7 +60,12 @@ pub enum Ev {
     /// local close() that the peer never answers; the future is dropped after a quiescent point
     CloseUnanswered { link: u8 },
     EndSession { with_error: bool, peer_err: bool },
-    PeerEnd { err: bool },
+    PeerEnd {
+        err: bool,
+        /// the application queues this many pre-settled sends in the same instant the peer's end is written
+        #[serde(default)]
+        busy: u8,
+    },
     /// the peer sends `count` violating frames back to back: for a handle that is not attached (0 flow, 1 transfer,
     /// 2 detach), or a duplicate attach (3: the name of an attached link on a new handle, 4: a new name on a handle in use)
     PeerUnattached { kind: u8, count: u8 },
@@ -86,7 +91,7 @@ fn ev() -> BoxedStrategy<Ev> {
         5 => (0u8..4, any::<bool>(), any::<bool>(), 0u8..4).prop_map(|(link, closed, err, then)| Ev::PeerDetach { link, closed, err, then }),
         1 => (0u8..4).prop_map(|link| Ev::CloseUnanswered { link }),
         1 => (any::<bool>(), any::<bool>()).prop_map(|(with_error, peer_err)| Ev::EndSession { with_error, peer_err }),
-        1 => any::<bool>().prop_map(|err| Ev::PeerEnd { err }),
+        2 => (any::<bool>(), prop_oneof![2 => Just(0u8), 1 => Just(3u8), 1 => Just(40u8)]).prop_map(|(err, busy)| Ev::PeerEnd { err, busy }),
         1 => (0u8..5, 1u8..4).prop_map(|(kind, count)| Ev::PeerUnattached { kind, count }),
         1 => Just(Ev::DropSession),
     ]
@@ -659,9 +664,21 @@ pub async fn run_async(c: &Case, kf_close_open: bool, excluded: &std::cell::Cell
                 }
                 session_over = true;
             }
-            Ev::PeerEnd { err } => {
+            Ev::PeerEnd { err, busy } => {
                 info.peer_initiated = true;
                 peer.send_frame(my_ch, &Peer::end_body(if *err { peer_err_body() } else { None }), &[]).await?;
+                if *busy > 0 {
+                    // link frames queued between link and session when the end is handled
+                    if let Some(l) = links.iter_mut().find(|l| matches!(l.h, Some(LinkH::S(_)))) {
+                        if let Some(LinkH::S(snd)) = l.h.as_mut() {
+                            for _ in 0..*busy {
+                                let sendable: Sendable<fe2o3_amqp::types::messaging::AmqpValue<Value>> = Sendable::builder().message(Value::Uint(7)).settled(true).build();
+                                // no await point that lets the engine run in between is intended; failures are fine
+                                let _ = tokio::time::timeout(std::time::Duration::from_millis(0), snd.send_batchable(sendable)).await;
+                            }
+                        }
+                    }
+                }
                 let e = peer.wait_for("end").await.map_err(|e| format!("{what}: the peer's end was not answered: {e}"))?;
                 if e.channel != ep_ch {
                     return Err(format!("{what}: end answered on channel {}", e.channel));
